@@ -36,6 +36,8 @@ PolySumOver(S, F(_)) == FoldSet(LAMBDA x, acc : PolyAdd(acc, F(x)), {}, S)
 (* the polynomial of a sequence of <<word, coeff>> terms (duplicates accumulate) *)
 PolyOfTerms(ts) == FoldSet(LAMBDA i, acc : PolyAdd(acc, PolyTerm(ts[i][1], ts[i][2])), {}, DOMAIN ts)
 Repl(x, n) == [i \in 1..n |-> x]
+RECURSIVE SortedSeqOf(_)
+SortedSeqOf(S) == IF S = {} THEN <<>> ELSE <<Min(S)>> \o SortedSeqOf(S \ {Min(S)})
 
 ----------------------------------------------------------------------------
 (* denotation of a graph *)
